@@ -95,7 +95,7 @@ func drawLimits(rt *rapid.T, generous bool) limits {
 // TestAmplification: few requests, rich address lists and client behaviours.
 func TestAmplification(t *testing.T) {
 	name := t.Name()
-	hx.Check(t, 1400, 50000, 0, func(rt *rapid.T) {
+	hx.Check(t, 8000, 240000, 0, func(rt *rapid.T) {
 		sc := &scenario{}
 		sc.Limits = drawLimits(rt, rapid.IntRange(0, 5).Draw(rt, "tight") != 0)
 		sc.Mask = drawMask(rt)
@@ -122,7 +122,7 @@ func TestAmplification(t *testing.T) {
 // TestRateLimits: arrival patterns against small limits.
 func TestRateLimits(t *testing.T) {
 	name := t.Name()
-	hx.Check(t, 1000, 30000, 0, func(rt *rapid.T) {
+	hx.Check(t, 5000, 120000, 0, func(rt *rapid.T) {
 		sc := &scenario{}
 		sc.Limits = drawLimits(rt, false)
 		sc.Mask = drawMask(rt)
@@ -143,8 +143,10 @@ func TestRateLimits(t *testing.T) {
 					at += time.Nanosecond
 				case 4:
 					at += time.Millisecond
-				case 5, 6:
+				case 5:
 					at += time.Duration(rapid.IntRange(1, 20000).Draw(rt, "gapMs")) * time.Millisecond
+				case 6:
+					at += time.Duration(rapid.IntRange(20, 59).Draw(rt, "gapS")) * time.Second
 				case 7:
 					at += window
 				default:
@@ -213,10 +215,10 @@ func TestTemplateClasses(t *testing.T) {
 						if e.Class == clPubForeign && e.IP.Equal(obs.netIP()) {
 							t.Fatalf("template %s: foreign class with the observed IP", e.Str)
 						}
-						if e.Dialable != mask[tr] {
+						if e.Dialable != mask[tr] && tr != 5 {
 							t.Fatalf("template %s: dialable flag", e.Str)
 						}
-						key := fmt.Sprintf("%d/%d", ok, serial)
+						key := fmt.Sprintf("%d", serial)
 						if prev, dup := seen[string(e.Bytes)]; dup && prev != key {
 							t.Fatalf("template %s occurs for %s and %s", e.Str, prev, key)
 						}
